@@ -78,7 +78,11 @@ impl Debug for ConnectionMeta {
                    channel: {:?}, \
                    sni_auth_creds: {:?} \
                }}",
-            sni_ref, self.protocol, self.channel, self.sni_auth_creds,
+            sni_ref,
+            self.protocol,
+            self.channel,
+            // the credentials label is a secret: only show whether it is present
+            self.sni_auth_creds.as_ref().map(|_| "scrubbed"),
         )
     }
 }
